@@ -81,6 +81,11 @@ def run(tier, seed):
         jobs.append(("valid", FIXED_MODULE, os_, "FX"))
     for fam, ftext in FIXED_FAULTS:
         jobs.append(("fault:" + fam, ftext, (), "FXF"))
+    # constructs that are legal only with -fcompound-names (the same component identifier with named numbers in two types)
+    for os_ in [("-fcompound-names",), ("-fcompound-names", "-fwide-types"), ("-fcompound-names", "-findirect-choice", "-fno-include-deps")]:
+        jobs.append(("valid", FIXED_COMPOUND, os_, "FXC"))
+    for os_ in [(), ("-fwide-types",), ("-no-gen-PER",)]:
+        jobs.append(("valid", FIXED_QUADS, os_, "FXC"))
     for nm, ptext in FIXED_PARAM:
         for os_ in [(), ("-fcompound-names",), ("-fwide-types", "-findirect-choice")]:
             jobs.append(("valid", ptext, os_, "PAR:" + nm))
@@ -184,7 +189,7 @@ def run(tier, seed):
             if not diag:
                 chk.violation(dict(key, symptom="rejected-without-diagnostic"), "asn1c exit %d with empty stderr (%s)" % (rc, kind), replay)
             elif kind == "valid":
-                if rec["name"] == "FX":
+                if rec["name"] in ("FX", "FXC"):
                     chk.inconcl("the fixed constructs module was rejected: " + diag.split("\n")[0][:100])
                 chk.count("valid_module_rejected_with_diagnostic")
                 chk.extra.setdefault("rejection_diagnostics", {})
@@ -271,6 +276,15 @@ Rec ::= SEQUENCE {
 
 Bits ::= BIT STRING { first(0), last(31) } (SIZE(32))
 
+-- DEFAULT character strings that need care inside a C string literal
+Dq ::= SEQUENCE {
+    q IA5String DEFAULT "say ""hi"" twice",
+    b VisibleString DEFAULT "back\\slash",
+    e [0] IA5String DEFAULT "ends with \\",
+    p PrintableString DEFAULT "plain",
+    n INTEGER
+}
+
 -- the same tag number in several classes, and the same tag several times, in one tag map
 Tg ::= SEQUENCE {
     hint CHOICE { h1 [0] INTEGER, h2 [1] BOOLEAN } OPTIONAL,
@@ -286,6 +300,22 @@ Tg ::= SEQUENCE {
 Deep ::= SEQUENCE OF DeepEl
 
 DeepEl ::= SET OF CHOICE { da [0] Ratio, db [1] SEQUENCE { x Bits } }
+
+END
+"""
+
+# permitted alphabets of wide string types whose highest character sits next to the 256-entry table limit, written
+# with quadruples (a module of its own: asn1c's lexer loses track of later numbers after a quadruple)
+FIXED_QUADS = ("FQ DEFINITIONS ::= BEGIN\nBm1 ::= BMPString (FROM (\"A\"..\"Z\" | {0,0,0,255}))\nBm2 ::= BMPString (FROM (\"A\"..\"Z\" | {0,0,1,0}))\n"
+               "Bm3 ::= BMPString (FROM (\"A\"..\"Z\" | {0,0,1,1}))\nUm ::= UniversalString (FROM (\"a\"..\"c\" | {0,0,1,0}))\nEND\n")
+
+FIXED_COMPOUND = """FXC DEFINITIONS AUTOMATIC TAGS ::= BEGIN
+
+Request ::= SEQUENCE { version INTEGER { v1(0), v2(1) }, kind ENUMERATED { get(0), put(1) }, body CHOICE { text IA5String, raw OCTET STRING } }
+
+Reply ::= SEQUENCE { version INTEGER { v1(0), v2(1) }, kind ENUMERATED { ok(0), failed(1) }, body CHOICE { text IA5String, code INTEGER }, bits BIT STRING { first(0), last(7) } OPTIONAL }
+
+Exchange ::= SEQUENCE { rq Request, rp Reply OPTIONAL, log SEQUENCE OF SEQUENCE { version INTEGER { v1(0) }, note UTF8String } }
 
 END
 """
